@@ -5,6 +5,7 @@ import (
 	"go/constant"
 	"golang.org/x/tools/go/ssa"
 	"regexp"
+	"regexp/syntax"
 	"sort"
 	"strings"
 )
@@ -126,6 +127,7 @@ func runC09(c *Ctx) {
 	// T0
 	checkT0(c)
 	checkT5c(c)
+	checkT8(c)
 
 	// T7: every binary operator that token post-processing inserts between a
 	// token and the traversal that follows it binds tighter than every infix
@@ -490,5 +492,65 @@ func checkT5c(c *Ctx) {
 	})
 	if n == 0 {
 		r.Note("T5: processArgs applies no constant rewrite involving line feeds to the expression text")
+	}
+}
+
+// checkT8: removing the blank between two tokens must not change how they
+// lex. An operator rule that ends in an optional class of flag letters
+// (`=[c]*`, `\*[\+|\?cdn]*`) keeps matching into the next token when that token
+// starts with one of the letters: `.a=contains("x")` lexes as `=c` + `ontains…`
+// and is rejected, while `.a = contains("x")` parses.
+func checkT8(c *Ctx) {
+	r := c.R
+	r.Rule("T8", "an operator's optional flag suffix cannot swallow the first character of a following token", 100)
+	if !c.tables() {
+		return
+	}
+	type first struct {
+		pattern string
+		set     runeSet
+	}
+	var firsts []first
+	for _, lr := range c.Lex.Rules {
+		re, err := syntax.Parse(lr.Pattern, syntax.Perl)
+		if err != nil {
+			continue
+		}
+		fs, _ := firstRunes(re.Simplify())
+		firsts = append(firsts, first{lr.Pattern, fs})
+	}
+	letters := rsFromString("abcdefghijklmnopqrstuvwxyzABCDEFGHIJKLMNOPQRSTUVWXYZ_")
+	for _, lr := range c.Lex.Rules {
+		key := fmt.Sprintf("rule[%q]/flag-suffix", lr.Pattern)
+		re, err := syntax.Parse(lr.Pattern, syntax.Perl)
+		if err != nil {
+			r.Undecided("T8", key, c.P.pos(lr.Pos), "pattern does not parse: "+err.Error())
+			continue
+		}
+		suffix := optionalSuffixRunes(re).intersect(letters)
+		if len(suffix) == 0 || lr.NoToken {
+			r.Discharge("T8", key, c.P.pos(lr.Pos), "no optional suffix of letters")
+			continue
+		}
+		// keyword-like rules that can start with one of those letters
+		var victims []string
+		for _, f := range firsts {
+			if f.pattern == lr.Pattern {
+				continue
+			}
+			if len(f.set.intersect(suffix)) > 0 && len(f.set.intersect(letters)) > 0 && len(f.set) < 200 {
+				victims = append(victims, f.pattern)
+			}
+		}
+		if len(victims) == 0 {
+			r.Discharge("T8", key, c.P.pos(lr.Pos), "no other token starts with a letter of the optional suffix "+suffix.String())
+			continue
+		}
+		sort.Strings(victims)
+		show := victims
+		if len(show) > 5 {
+			show = append(append([]string{}, show[:5]...), fmt.Sprintf("… %d more", len(victims)-5))
+		}
+		r.Finding("T8", key, c.P.pos(lr.Pos), fmt.Sprintf("the rule ends in an optional suffix of flag letters %s; a following token that starts with one of them (rules %s) loses its first character when no blank separates the two: `x OP keyword` and `xOPkeyword` do not lex alike", suffix.String(), strings.Join(show, ", ")))
 	}
 }
